@@ -34,6 +34,14 @@ pub fn elements<const D: usize>(shape: &[(Dimension, usize); D]) -> usize {
 }
 
 /**
+ * Returns the product of the dimension lengths in the provided shape, or None if the product
+ * is not representable as a usize (in which case no container could hold that many elements).
+ */
+pub(crate) fn checked_elements<const D: usize>(shape: &[(Dimension, usize); D]) -> Option<usize> {
+    shape.iter().try_fold(1usize, |elements, d| elements.checked_mul(d.1))
+}
+
+/**
  * Finds the position of the dimension name in the shape.
  *
  * `None` is returned if the dimension name is not in the shape.
